@@ -240,6 +240,7 @@ class RollingWindow(Contract):
 
 @register
 class ExpandingWindow(Contract):
+    functional = True
     target = M + ":expanding_window"
     stubs = {"check_coordinates": BU + ":check_coordinates", "kdtree": "verde.utils:kdtree"}
 
